@@ -479,7 +479,7 @@ func (r *checkRun) writeLedger() int {
 // writeReplay stores the failed obligation with the solver output.
 func (r *checkRun) writeReplay(key, text string, o *Obligation) string {
 	os.MkdirAll(r.replayDir, 0o755)
-	base := filepath.Join(r.replayDir, sanitize(key))
+	base := filepath.Join(r.replayDir, fmt.Sprintf("%s.%08x", sanitize(key), fnv32(key)))
 	rep := map[string]any{"property": r.prop, "obligation": key, "what": text}
 	if o != nil {
 		q := o.Query(true)
